@@ -1,103 +1,11 @@
 /-
-  Model of lib/gnu_gama/local/pointid.cpp / pointid.h : `PointID::init`, `operator<`,
-  `operator==`, `operator!=` over byte strings (`std::string`), together with the parts of
-  lib/gnu_gama/intfloat.h (`IsInteger`) and of libstdc++ (`istringstream >> long`,
-  `ostringstream << long`, `std::string::operator<`, `std::isspace` in the "C" locale) that
-  `init` and `operator<` go through.  Core Lean only.
-
-  * `init` collapses every run of white space to one blank, drops leading and trailing white
-    space, and sets `iid` to the value of the identifier when it is the canonical decimal
-    spelling of a positive `long` (`"1"`, `"42"`; not `"01"`, `"+1"`, `"0"`, `"1.0"`,
-    `"9223372036854775808"`), else `iid = 0`.
-  * `a < b`: both numeric → by value; numeric before non-numeric; else `sid < p.sid`
-    (`char_traits<char>::compare` = unsigned bytes, shorter prefix first).
+  `PointID` (lib/gnu_gama/local/pointid.cpp): `init` and the byte-string order are modelled by hand in
+  `Gama/Model/PointIdBase.lean`; `PointId.lt`, `PointId.eq`, `PointId.ne` (`operator<`, `==`, `!=`) are
+  REGENERATED from pointid.cpp into `Gama/Gen/PointIdCmp.lean` by tools/gen/c07_pointid.py on every
+  run of the C07 check.  This module re-exports both (the name every user imports).  Core Lean only.
 -/
+import Gama.Gen.PointIdCmp
 namespace Gama.PointId
-
-abbrev Bytes := List UInt8
-
-/-- `std::isspace` in the "C" locale: blank, `\t \n \v \f \r` (bytes ≥ 0x80 are not spaces) -/
-def isSpace (c : UInt8) : Bool := c.toNat = 32 || (9 ≤ c.toNat && c.toNat ≤ 13)
-
-def isDigit (c : UInt8) : Bool := 48 ≤ c.toNat && c.toNat ≤ 57
-
-/-- the loop of `init`: `prev` = the previous character was white space (initially `true`);
-    `if (prev && curr) continue;` leaves `prev` as it was (`true`) -/
-def collapse : Bool → Bytes → Bytes
-  | _, [] => []
-  | prev, c :: cs =>
-    let curr := isSpace c
-    if prev && curr then collapse prev cs
-    else (if curr then (32 : UInt8) else c) :: collapse curr cs
-
-/-- `if (!sid.empty() && std::isspace(sid.back())) sid.pop_back();` -/
-def dropTrailingSpace (s : Bytes) : Bytes :=
-  match s.getLast? with
-  | some c => if isSpace c then s.dropLast else s
-  | none => s
-
-def normalize (s : Bytes) : Bytes := dropTrailingSpace (collapse true s)
-
-/-- `GNU_gama::IsInteger(b, e)` on a string without leading/trailing white space:
-    optional sign, then at least one character, all decimal digits -/
-def isInteger (s : Bytes) : Bool :=
-  match s with
-  | [] => false
-  | c :: t =>
-    let ds := if c.toNat = 43 || c.toNat = 45 then t else c :: t
-    !ds.isEmpty && ds.all isDigit
-
-def LONG_MAX : Int := 9223372036854775807
-def LONG_MIN : Int := -9223372036854775808
-
-def digitsVal (ds : Bytes) : Nat := ds.foldl (fun a d => 10 * a + (d.toNat - 48)) 0
-
-/-- `inp >> tmp` (`long`) on a string accepted by `isInteger`; on overflow libstdc++ stores
-    `numeric_limits<long>::max()/min()` (and sets failbit, which `init` does not look at) -/
-def parseLong (s : Bytes) : Int :=
-  let (neg, ds) := match s with
-    | c :: t => if c.toNat = 45 then (true, t) else if c.toNat = 43 then (false, t) else (false, s)
-    | [] => (false, [])
-  let v : Int := (digitsVal ds : Nat)
-  let i : Int := if neg then -v else v
-  if LONG_MAX < i then LONG_MAX else if i < LONG_MIN then LONG_MIN else i
-
-/-- `out << tmp` for a non-negative `long` -/
-def renderNat (n : Nat) : Bytes := (Nat.toDigits 10 n).map (fun c => c.toNat.toUInt8)
-
-structure PointID where
-  /-- "positive integer representation if available or 0" -/
-  iid : Nat
-  sid : Bytes
-deriving DecidableEq, Repr
-
-def init (s : Bytes) : PointID :=
-  let sid := normalize s
-  if !isInteger sid then ⟨0, sid⟩ else
-  let tmp := parseLong sid
-  if tmp < 0 then ⟨0, sid⟩ else
-  if renderNat tmp.toNat ≠ sid then ⟨0, sid⟩ else
-  ⟨tmp.toNat, sid⟩
-
-/-- `std::string::operator<` : lexicographic on unsigned bytes, a proper prefix is smaller -/
-def bytesLt : Bytes → Bytes → Bool
-  | [], [] => false
-  | [], _ :: _ => true
-  | _ :: _, [] => false
-  | a :: as, b :: bs => if a.toNat < b.toNat then true else if b.toNat < a.toNat then false else bytesLt as bs
-
-/-- `PointID::operator<` -/
-def lt (a b : PointID) : Bool :=
-  if a.iid ≠ 0 && b.iid ≠ 0 then decide (a.iid < b.iid)
-  else if a.iid ≠ 0 && b.iid = 0 then true
-  else if a.iid = 0 && b.iid ≠ 0 then false
-  else bytesLt a.sid b.sid
-
-/-- `PointID::operator==` -/
-def eq (a b : PointID) : Bool := a.iid = b.iid && a.sid = b.sid
-
-/-- `PointID::operator!=` -/
-def ne (a b : PointID) : Bool := a.iid ≠ b.iid || a.sid ≠ b.sid
 
 /-! ### mutants kept for the non-vacuity examples in `Props/C07.lean` -/
 
